@@ -732,3 +732,26 @@ func keyValid(ks aKeySl) bool {
 	k, ok := ks.c.v.(aKey)
 	return ok && k.valid
 }
+
+// sharedObject reports an item object that is held by a container of the
+// consensus overlay and by a container of the mempool overlay.
+func (m *machine) sharedObject() string {
+	objs := func(mi *astruct) map[*aitem]string {
+		out := map[*aitem]string{}
+		for i, name := range []string{"gotItems", "updatedItems"} {
+			if mp, ok := mi.fields[i].v.(*amap); ok && mp.has {
+				if it, ok := mp.v.(*aitem); ok {
+					out[it] = name
+				}
+			}
+		}
+		return out
+	}
+	fin, mem := objs(m.finMI), objs(m.memMI)
+	for o, fn := range fin {
+		if mn, ok := mem[o]; ok {
+			return "finalityItems." + fn + " and cachedItems." + mn
+		}
+	}
+	return ""
+}
